@@ -59,6 +59,8 @@ S_SYMOP = st.tuples(st.just("symop"), st.sampled_from(["multiply", "multiply", "
 # compile, in one step, a derived circuit one of whose operands is already compiled and the other is not
 S_PARTLY = st.tuples(st.just("partly"), st.sampled_from(["multiply", "concatenate"]), st.integers(0, 7), st.integers(0, 15),
                      st.booleans(), _HOW)
+MAX_PRODUCT_LAYERS = 1200  # bound on |layers(a)| * |layers(b)| of an operator step (memory)
+
 STEP = st.one_of(S_PARTLY, S_PARTLY, S_SYMOP, S_SYMOP, S_NEW_CTX, S_ENTER, S_ENTER, S_ENTER, S_EXIT, S_EXIT, S_EXIT_EXC, S_NEW_CIRCUIT, S_COMPILE, S_COMPILE,
                  S_COMPILE, S_COMPILE, S_OPERATOR, S_OPERATOR, S_OPERATOR, S_OPERATOR, S_FOREIGN)
 
@@ -290,6 +292,12 @@ def run_case(case):
                     kw = {} if how != "module-explicit" else {"ctx": ctx}
                     tgt = ctx if how == "method" else PL
                     expected_ops = None
+                    if (op in ("multiply", "differentiate")
+                            and len(list(sa.layers)) * (len(list(sb.layers)) if op == "multiply" else 4) > MAX_PRODUCT_LAYERS):
+                        # iterated products of products grow multiplicatively (a thorough-tier worker reached 59 GB):
+                        # the history goes on without this step
+                        feats.add("operator-skipped(result-too-large)")
+                        continue
                     try:
                         if op in ("integrate", "integrate-all"):
                             sc_vars = sorted(sa.scope)
